@@ -28,6 +28,14 @@ func (i *IRCServer) cmdTopic(s *Session, reply *Replyctx, msg *irc.Message) {
 
 	// “TOPIC :”, i.e. unset the topic.
 	if msg.Trailing() == "" && len(msg.Params) == 2 {
+		if !s.Channels[ChanToLower(channel)] {
+			i.sendUser(s, reply, &irc.Message{
+				Prefix:  i.ServerPrefix,
+				Command: irc.ERR_NOTONCHANNEL,
+				Params:  []string{s.Nick, channel, "You're not on that channel"},
+			})
+			return
+		}
 		if c.modes['t'] && !c.nicks[NickToLower(s.Nick)][chanop] {
 			i.sendUser(s, reply, &irc.Message{
 				Prefix:  i.ServerPrefix,
